@@ -291,6 +291,17 @@ def _obs(g) -> str:
             except Exception:  # noqa: BLE001
                 x.append('..')
     parts.append('X:' + ''.join(x))
+    # typed forms of the queries and the list-argument form of get_nodes
+    q = []
+    for a in names:
+        for b in names:
+            q.append('d' if g.edge_exists(a, b, edge_type=EdgeType.DIRECTED_EDGE)
+                     else ('u' if g.edge_exists(a, b, edge_type=EdgeType.UNDIRECTED_EDGE) else '.'))
+    parts.append('Q:' + ''.join(q))
+    for n in names:
+        parts.append('Y' + hx(n) + '=' + _pairs(g.get_edges(destination=n, edge_type=EdgeType.DIRECTED_EDGE)) + '/'
+                     + _pairs(g.get_edges(source=n, edge_type=EdgeType.BIDIRECTED_EDGE)))
+    parts.append('L:' + _safe(lambda: _join(hx(x.identifier) for x in g.get_nodes(list(reversed(names))))))
     return ' '.join(parts)
 
 
